@@ -32,6 +32,33 @@ theorem pure_remove_redundant_data : pureProg ir_remove_redundant_data = true :=
 theorem pure_adjust_notesequence_times : pureProg ir_adjust_notesequence_times = true := by decide +kernel
 theorem pure_rectify_beats : pureProg ir_rectify_beats = true := by decide +kernel
 
+/-! ## The result is a NEW NoteSequence
+
+"Every operation documented as returning a new NoteSequence": whatever an accepted operation returns
+contains no object that was reachable from its arguments (`NSV.C11.fresh_result_sound`), so no later
+in-place edit of the result by the caller can reach the argument, for every argument value (factor
+1.0, amount 0, an identity time map, a window covering everything, a single piece, no section groups …).
+Re-decided against the IR of the current source on every run. -/
+theorem fresh_trim_note_sequence : freshResult ir_trim_note_sequence = true := by decide +kernel
+theorem fresh__extract_subsequences : freshResult ir__extract_subsequences = true := by decide +kernel
+theorem fresh_extract_subsequence : freshResult ir_extract_subsequence = true := by decide +kernel
+theorem fresh_split_note_sequence : freshResult ir_split_note_sequence = true := by decide +kernel
+theorem fresh_split_note_sequence_on_time_changes : freshResult ir_split_note_sequence_on_time_changes = true := by decide +kernel
+theorem fresh_split_note_sequence_on_silence : freshResult ir_split_note_sequence_on_silence = true := by decide +kernel
+theorem fresh_shift_sequence_times : freshResult ir_shift_sequence_times = true := by decide +kernel
+theorem fresh_stretch_note_sequence : freshResult ir_stretch_note_sequence = true := by decide +kernel
+theorem fresh_transpose_note_sequence : freshResult ir_transpose_note_sequence = true := by decide +kernel
+theorem fresh_quantize_note_sequence : freshResult ir_quantize_note_sequence = true := by decide +kernel
+theorem fresh_quantize_note_sequence_absolute : freshResult ir_quantize_note_sequence_absolute = true := by decide +kernel
+theorem fresh_apply_sustain_control_changes : freshResult ir_apply_sustain_control_changes = true := by decide +kernel
+theorem fresh_concatenate_sequences : freshResult ir_concatenate_sequences = true := by decide +kernel
+theorem fresh_merge_sequences : freshResult ir_merge_sequences = true := by decide +kernel
+theorem fresh_repeat_sequence_to_duration : freshResult ir_repeat_sequence_to_duration = true := by decide +kernel
+theorem fresh_expand_section_groups : freshResult ir_expand_section_groups = true := by decide +kernel
+theorem fresh_remove_redundant_data : freshResult ir_remove_redundant_data = true := by decide +kernel
+theorem fresh_adjust_notesequence_times : freshResult ir_adjust_notesequence_times = true := by decide +kernel
+theorem fresh_rectify_beats : freshResult ir_rectify_beats = true := by decide +kernel
+
 /-- `_quantize_notes` is documented to work in place; the obligation proved for it is its *contract*:
 called on a wholly fresh first argument it writes nothing that existed before (that is how
 `quantize_note_sequence(_absolute)` call it, which is part of their obligations above). -/
